@@ -1,15 +1,20 @@
 use crate::processor::{Context, ContextKey, Process, ProcessDesision, Result, Titles};
 use std::collections::HashSet;
 
+#[cfg(not(yift_jawk_verif))]
+type KnownLines = HashSet<ContextKey>;
+#[cfg(yift_jawk_verif)]
+type KnownLines = HashSet<ContextKey, crate::verif::SeededState>;
+
 pub struct Uniquness {
-    knwon_lines: HashSet<ContextKey>,
+    knwon_lines: KnownLines,
     next: Box<dyn Process>,
 }
 
 impl Uniquness {
     pub fn create_process(next: Box<dyn Process>) -> Box<dyn Process> {
         Box::new(Uniquness {
-            knwon_lines: HashSet::new(),
+            knwon_lines: KnownLines::default(),
             next,
         })
     }
